@@ -1,0 +1,70 @@
+//go:build verif
+
+// Package verifhook provides points at which a simulation harness can observe
+// or perturb rqlite (crash images, injected I/O errors, scheduling yields).
+// This is the "verif" build: functions call harness-installed handlers.
+package verifhook
+
+import "sync/atomic"
+
+// Enabled reports whether hooks are compiled in.
+const Enabled = true
+
+type handlers struct {
+	hit       func(point string) error
+	yield     func(point string)
+	note      func(point string, v int64)
+	dirSynced func(dir string)
+	fatal     func(point string, err error) bool
+}
+
+var h atomic.Pointer[handlers]
+
+// Install sets the handlers (nil functions are allowed). Install with all nil
+// arguments to remove them.
+func Install(hit func(string) error, yield func(string), note func(string, int64),
+	dirSynced func(string), fatal func(string, error) bool) {
+	h.Store(&handlers{hit: hit, yield: yield, note: note, dirSynced: dirSynced, fatal: fatal})
+}
+
+// Reset removes all handlers.
+func Reset() { h.Store(nil) }
+
+// Hit marks a named point; the harness may take a crash image there, or return
+// an error to be treated as an I/O failure at that point.
+func Hit(point string) error {
+	if x := h.Load(); x != nil && x.hit != nil {
+		return x.hit(point)
+	}
+	return nil
+}
+
+// Yield marks a point where a cooperative scheduler may switch tasks.
+func Yield(point string) {
+	if x := h.Load(); x != nil && x.yield != nil {
+		x.yield(point)
+	}
+}
+
+// Note reports an event to the harness.
+func Note(point string, v int64) {
+	if x := h.Load(); x != nil && x.note != nil {
+		x.note(point, v)
+	}
+}
+
+// DirSynced reports that a directory has been fsynced.
+func DirSynced(dir string) {
+	if x := h.Load(); x != nil && x.dirSynced != nil {
+		x.dirSynced(dir)
+	}
+}
+
+// Fatal gives the harness the chance to handle a deliberate process exit.
+// It returns true if the harness handled it (the caller must then not exit).
+func Fatal(point string, err error) bool {
+	if x := h.Load(); x != nil && x.fatal != nil {
+		return x.fatal(point, err)
+	}
+	return false
+}
